@@ -72,7 +72,7 @@ def run(tier, rep):
     rep.add(evaluations=o["probes"], traces_validated_against_impl=o["cfgs"], distinct_nontrivial=o["cfgs"],
             rule="configurations (N, N_active, testparticle_type, gravity_ignore_terms) of the TLC table; each probed with one unit-mass source at a time per routine",
             exhaustive=not quick)
-    rep.cov.update({"configurations_probed": o["cfgs"], "of_configurations": nconf, "trace_rows_probed": o.get("trace_rows", 0), "of_trace_rows": len(trows), "jacobi_rows": o.get("jacobi_rows", 0), "jacobi_equivalence_worst": o.get("jacobi_equivalence_worst"), "tree_angle_errors": o.get("tree_angle_errors"), "unit_mass_probes": o["probes"]})
+    rep.cov.update({"configurations_probed": o["cfgs"], "of_configurations": nconf, "trace_rows_probed": o.get("trace_rows", 0), "of_trace_rows": len(trows), "jacobi_rows": o.get("jacobi_rows", 0), "jacobi_equivalence_worst": o.get("jacobi_equivalence_worst"), "tree_angle_errors": o.get("tree_angle_errors"), "tree_reference_worst": o.get("tree_reference_worst"), "unit_mass_probes": o["probes"]})
     for s in o["samples"]:
         rep.sample({"kind": "configuration", **s})
     for v in o["violations"]:
@@ -83,6 +83,8 @@ def run(tier, rep):
                 v["routine"], c["n"], c["na"], c["type"], c["ign"], (" softening %s" % v["softening"]) if v.get("softening") else "",
                 (" periodic box %s with ghost ring" % (v["box"],)) if v.get("box") else "", v["source"], v["target"],
                 "in" if v.get("in_specified_set", True) else "not in", v["got"], v["want"])
+            if v.get("clause"):
+                desc = "%s, N=%d: %s: got %s, reference %s" % (v["routine"], c["n"], v["clause"], v["got"], v["want"])
         else:
             desc = "%s, N=%d: %s: %s (scale %s)" % (v["routine"], c["n"], v["clause"], v["sum"], v["scale"])
         rep.violation(key, desc, v)
